@@ -3,7 +3,7 @@
    callback on every run).  Every proof is `exact <lemma>`. *)
 From Coq Require Import List Bool Arith.
 From RecordUpdate Require Import RecordSet.
-From GW Require Import Proto ProtoEvolves ProtoProps ProtoBound Callbacks CallbackGen CallbackRefine CallbackSend Coroutines CoroutineGen CoroutineRefine ProtoMutex ProtoAnswer ProtoTimer.
+From GW Require Import Proto ProtoEvolves ProtoProps ProtoBound Callbacks CallbackGen CallbackRefine CallbackSend Coroutines CoroutineGen CoroutineRefine ProtoMutex ProtoAnswer ProtoTimer ProtoConcBudget.
 Import ListNotations RecordSetNotations.
 
 (* in every reachable state the retry counter is within the configured budget (any interleaving, any number of callers) *)
@@ -73,6 +73,14 @@ Theorem C04_waiting_caller_has_a_timeout_armed : forall es kd ka r s acts, run (
   (exists h, s_timer s = Some h /\ In h (s_handles s)) \/ In CbSoon (s_ready s).
 Proof. exact waiting_caller_has_a_timeout_armed. Qed.
 
+(* OBSERVATION outside the quantifier of this property (C04 and C05 range over one caller at a time; C06 does not speak about the budget):
+   the bound above is stated for run_seq because it is FALSE for concurrent callers -- the retry counter belongs to the protocol object, and a
+   caller that gives up the lock between two attempts can find it reset by another caller's success.  Witness (retries = 1): task 0 transmits
+   three times before MaxRetries.  The real classes behave the same (DESIGN.md section 5, C04). *)
+Theorem C04_bound_concurrent_refuted :
+  exists es s acts, run (init UDP true 1) es = Some (s, acts) /\ sends_of 0 acts = 3 /\ In (ADone 0 OMaxRetries) acts.
+Proof. exact bound_concurrent_refuted. Qed.
+
 Print Assumptions C04_retry_bounded.
 Print Assumptions C04_budget_exhausted.
 Print Assumptions C04_retry_consumes_one.
@@ -84,3 +92,4 @@ Print Assumptions C04_send_request_sync_is_the_model.
 Print Assumptions C04_except_clauses_are_the_model.
 Print Assumptions C04_wait_for_is_the_model.
 Print Assumptions C04_waiting_caller_has_a_timeout_armed.
+Print Assumptions C04_bound_concurrent_refuted.
